@@ -121,8 +121,9 @@ RealSrv == cfg.rawSrv = ""
 
 \* Flow control is expected on this tunnel iff both ends advertise negotiation
 \* and neither has disabled it.
+\* a raw peer negotiates only if it says exactly "on" (mode "neg")
 FCExpected == /\ ~cfg.cliNoFC /\ ~cfg.srvNoFC
-              /\ cfg.rawCli # "legacy" /\ cfg.rawSrv # "legacy"
+              /\ cfg.rawCli \in {"", "neg"} /\ cfg.rawSrv \in {"", "neg"}
 
 \* the protocol revision a real tunnel client must use: the highest both ends support
 ExpectedRev == IF RealSrv THEN (IF FCExpected THEN 1 ELSE 0)
@@ -227,7 +228,7 @@ BadS2C(e, w) ==
   CASE e.kind = "settings" ->
            Flag(tun.s2cSent > 0, "settings.not-first", s)
       \cup Flag(s # -1, "settings.sid", s)
-      \cup Flag(cfg.rawCli = "legacy", "legacy.settings", s)
+      \cup Flag(cfg.rawCli \notin {"", "neg"}, "legacy.settings", s)
     [] e.kind = "hdr" ->
            Flag(w.sHdr > 0, "hdr.twice", s)
       \cup Flag(Len(w.sEnv) > 0 /\ ~w.cancelDeliv, "hdr.after-message", s)
@@ -480,9 +481,12 @@ OOpRet(e) ==
               [] e.op = "header" ->
                    IF e.cls = "ok"
                    THEN [ r EXCEPT !.hdrSeen = TRUE, !.hdr = IF r.hdrSeen THEN @ ELSE e.md,
+                                   \* the delivered header frame's metadata; nothing if none was delivered, or if the
+                                   \* RPC was finished locally (cancel, deadline, tunnel end) before it was processed
                                    !.hdrBad = @ \/ (r.sid \in DOMAIN ws /\
                                                  ~ \/ ws[r.sid].hdrDeliv /\ MDEq(e.md, ws[r.sid].sHdrMD)
-                                                   \/ ~ws[r.sid].hdrDeliv /\ MDEq(e.md, MD0)),
+                                                   \/ ~ws[r.sid].hdrDeliv /\ MDEq(e.md, MD0)
+                                                   \/ ws[r.sid].cliEnd \notin {"", "close"} /\ MDEq(e.md, MD0)),
                                    !.hdrMismatch = @ \/ (r.hdrSeen /\ ~MDEq(r.hdr, e.md)),
                                    !.hasHdrT = "hdrT" \in DOMAIN e,
                                    !.hdrT = IF "hdrT" \in DOMAIN e THEN e.hdrT ELSE MD0,
@@ -761,7 +765,7 @@ C11_LegacyClean == ~BadHas("legacy.wu") /\ ~BadHas("legacy.settings")
 \* (or fail) instead of hanging once the first server frame (or the peer's end) was delivered
 C11_SettingsIff ==
   (q.at /\ RealSrv /\ tun.opened /\ q.parked = <<>> /\ tun.causes = {}) =>
-     tun.settingsSent = (IF cfg.rawCli = "legacy" THEN 0 ELSE 1)
+     tun.settingsSent = (IF cfg.rawCli \notin {"", "neg"} THEN 0 ELSE 1)
 C11_StartCompletes ==
   (q.at /\ RealCli /\ tun.opened /\ q.parked = <<>> /\ cfg.dir = "fwd") =>
      /\ (cfg.rawSrv = "legacy" \/ tun.s2cDeliv >= 1 \/ tun.causes # {}) => (tun.started \/ tun.startFail)
@@ -772,6 +776,10 @@ C11_StartCompletes ==
 \* zero - or names a revision the client supports) never makes the client give up
 C11_WellFormedSettingsAccepted ==
   (RealCli /\ ~RealSrv /\ (tun.startFail \/ tun.chdone) /\ tun.s2cDeliv = 1 /\ ~TunnelCause) => tun.cliMustFailStart
+\* the peer ended the stream before any settings frame arrived: the channel is failed, not cleanly closed
+C11_MissingSettingsFails ==
+  (q.at /\ RealCli /\ cfg.rawSrv = "neg" /\ tun.s2cDeliv = 0 /\ "peerend" \in tun.causes /\ cfg.dir = "fwd") =>
+     (tun.startFail \/ (tun.chdone /\ tun.chErr = "err"))
 C11_FlowControlIff == \A s \in OSids : ws[s].rev = 0 => ((RealCli => ws[s].cWuSum = 0) /\ (RealSrv => ws[s].sWuSum = 0))
 
 \* ---- C03 / C04 ------------------------------------------------------------------
@@ -917,6 +925,11 @@ C16_SecondSendRefused ==
         /\ (RealCli /\ rp[ws[s].rpc].shape \in {"unary", "sstream"}) => Len(ws[s].cEnv) <= 1
         /\ (RealSrv /\ rp[ws[s].rpc].invShape \in {"unary", "cstream"}) => Len(ws[s].sEnv) <= 1
 C16_OneRequestOnly == \A r \in ORpcs : rp[r].invShape \in {"unary", "sstream"} => Len(rp[r].gotS) <= 1
+\* a method with a non-streaming request reads ahead until the half-close: whatever malformed or surplus
+\* request data was delivered before it, the handler never obtains a request (InvalidArgument instead)
+C16_NoRequestFromMalformedStream ==
+  \A r \in ORpcs : (rp[r].invShape \in {"unary", "sstream"} /\ rp[r].sid \in OSids /\ ~RealCli /\ 3 \in ws[rp[r].sid].sViol)
+     => Len(rp[r].gotS) = 0
 C16_NoSuccessOnWrongCount ==
   \A r \in ORpcs : (rp[r].shape \in {"unary", "cstream"} /\ Len(rp[r].gotC) >= 1 /\ rp[r].sid \in OSids) =>
      LET w == ws[rp[r].sid] IN w.sMsgsD = 1 /\ w.closeDeliv /\ w.close.code = 0
@@ -1012,7 +1025,7 @@ Formulas == [
   C08_IdsIncreasing |-> C08_IdsIncreasing, C08_NewFirst |-> C08_NewFirst,
   C08_AtMostOneInvocation |-> C08_AtMostOneInvocation, C08_RightHandler |-> C08_RightHandler,
   C11_Revision |-> C11_Revision, C11_LegacyClean |-> C11_LegacyClean, C11_SettingsIff |-> C11_SettingsIff,
-  C11_StartCompletes |-> C11_StartCompletes, C11_WellFormedSettingsAccepted |-> C11_WellFormedSettingsAccepted, C11_FlowControlIff |-> C11_FlowControlIff,
+  C11_StartCompletes |-> C11_StartCompletes, C11_MissingSettingsFails |-> C11_MissingSettingsFails, C11_WellFormedSettingsAccepted |-> C11_WellFormedSettingsAccepted, C11_FlowControlIff |-> C11_FlowControlIff,
   C03_TunnelSurvives |-> C03_TunnelSurvives, C03_BystandersComplete |-> C03_BystandersComplete,
   C02_ResultOnce |-> C02_ResultOnce, C02_CloseCarriesHandlerStatus |-> C02_CloseCarriesHandlerStatus,
   C02_StatusExact |-> C02_StatusExact, C02_TrailersAtTerminal |-> C02_TrailersAtTerminal,
@@ -1028,7 +1041,7 @@ Formulas == [
   C10_RefusedAfterShutdown |-> C10_RefusedAfterShutdown, C10_GracefulStopReturns |-> C10_GracefulStopReturns,
   C10_StopMeansStopped |-> C10_StopMeansStopped,
   C16_SecondSendRefused |-> C16_SecondSendRefused, C16_OneRequestOnly |-> C16_OneRequestOnly,
-  C16_NoSuccessOnWrongCount |-> C16_NoSuccessOnWrongCount,
+  C16_NoSuccessOnWrongCount |-> C16_NoSuccessOnWrongCount, C16_NoRequestFromMalformedStream |-> C16_NoRequestFromMalformedStream,
   C08_ExactlyOneWhenCompleted |-> C08_ExactlyOneWhenCompleted, C08_StaleIdEndsTunnel |-> C08_StaleIdEndsTunnel,
   C09_SrvTunnelLevel |-> C09_SrvTunnelLevel, C09_CliTunnelLevel |-> C09_CliTunnelLevel,
   C09_SrvStreamLevel |-> C09_SrvStreamLevel, C09_CliStreamLevel |-> C09_CliStreamLevel,
